@@ -229,6 +229,41 @@ def local_names(fn):
     return out
 
 
+def plainly_bound(fn, name):
+    """is `name` bound in fn only by statements the evaluator carries out in program order (assignments, loop / with / walrus targets, nested defs)
+    and not by a parameter, import, global / nonlocal declaration, del, except-as or match capture?"""
+    a = fn.args
+    if any(x.arg == name for x in a.posonlyargs + a.args + a.kwonlyargs) or (a.vararg and a.vararg.arg == name) or (a.kwarg and a.kwarg.arg == name):
+        return False
+    stack = list(fn.body)
+    while stack:
+        n = stack.pop()
+        if isinstance(n, (ast.FunctionDef, ast.AsyncFunctionDef, ast.ClassDef)):
+            if isinstance(n, ast.ClassDef) and n.name == name:
+                return False
+            continue
+        if isinstance(n, (ast.Lambda, ast.ListComp, ast.SetComp, ast.DictComp, ast.GeneratorExp)):
+            continue
+        if isinstance(n, (ast.Import, ast.ImportFrom)) and any((al.asname or al.name).split(".")[0] == name for al in n.names):
+            return False
+        if isinstance(n, (ast.Global, ast.Nonlocal)) and name in n.names:
+            return False
+        if isinstance(n, ast.ExceptHandler) and n.name == name:
+            return False
+        if isinstance(n, ast.Name) and n.id == name and isinstance(n.ctx, ast.Del):
+            return False
+        if isinstance(n, (ast.MatchAs, ast.MatchStar)) and n.name == name:
+            return False
+        if isinstance(n, ast.MatchMapping) and n.rest == name:
+            return False
+        if isinstance(n, (ast.Try, ast.AsyncFor, ast.AsyncWith)):
+            # bound inside a try block (a handler may or may not run) or an async statement: not decided here
+            if any(isinstance(x, ast.Name) and x.id == name and isinstance(x.ctx, ast.Store) for x in ast.walk(n)):
+                return False
+        stack.extend(ast.iter_child_nodes(n))
+    return True
+
+
 def is_generator(fn):
     stack = list(fn.body)
     while stack:
@@ -329,6 +364,7 @@ class World:
                     for al in x.names:
                         self.module_names.add((al.asname or al.name).split(".")[0])
         self.records = record_types(self.mod)
+        self.star_import = any(isinstance(x, ast.ImportFrom) and any(al.name == "*" for al in x.names) for x in ast.walk(self.mod.tree))
         self.imports = set()
         for st_ in ast.walk(self.mod.tree):
             if isinstance(st_, (ast.Import, ast.ImportFrom)):
@@ -377,6 +413,8 @@ class World:
         if getattr(ctx, "_c04_gaps", None) is None:
             ctx._c04_gaps = []
         self.gaps = ctx._c04_gaps
+        self.own_gaps = []           # ... those met in this world (a rule downgrades only what it derived from a world with a gap)
+        self.crashes = []            # (node, why, qual): statements that provably raise on the evaluated path (unbound local, str - str, ...)
 
     def gap(self, node, why, qual=None):
         try:
@@ -386,6 +424,16 @@ class World:
         item = (where, why)
         if item not in self.gaps:
             self.gaps.append(item)
+        if item not in self.own_gaps:
+            self.own_gaps.append(item)
+
+    def crash(self, node, why, qual=None):
+        try:
+            where = self.ctx.src.where(node) if node is not None and hasattr(node, "lineno") else (qual or "")
+        except Exception:  # noqa
+            where = qual or ""
+        if not any(w == where and y == why for _n, y, w in self.crashes):
+            self.crashes.append((node, why, where))
 
     # ---- bounds
     def bound(self, v, lo, hi, split=False):
@@ -908,6 +956,12 @@ class OP4Eval(AutoEvaluator):
                 if any(is_unknown(x) for x in args):
                     return next(x for x in args if is_unknown(x))
                 return percent_format(ta, args)
+        if isinstance(op, (ast.Sub, ast.Div, ast.FloorDiv, ast.Pow, ast.MatMult, ast.LShift, ast.RShift, ast.BitAnd, ast.BitOr, ast.BitXor)) and \
+                (isinstance(a, Txt) or isinstance(b, Txt) or (is_rat(a) and strconst(a) is not None) or (is_rat(b) and strconst(b) is not None)):
+            # a str supports +, * and % only
+            why = f"operator {type(op).__name__} on a text"
+            self.W.crash(node, why + " (TypeError)", self.qual)
+            return Bad(why)
         if not is_rat(a) or not is_rat(b):
             return Unknown(f"operator {type(op).__name__} on {type(a).__name__}, {type(b).__name__}")
         try:
@@ -973,9 +1027,18 @@ class OP4Eval(AutoEvaluator):
                 return F.sym(node.id)
             if self.fn is not None:
                 if node.id in self.locals:
-                    return Unknown(f"local name `{node.id}` is read before it is bound")
+                    why = f"local name `{node.id}` is read before it is bound"
+                    if plainly_bound(self.fn, node.id):
+                        # every statement that binds the name is one the evaluator carries out, and none was on this path: UnboundLocalError
+                        W.crash(node, why + " (UnboundLocalError)", self.qual)
+                        return Bad(why)
+                    return Unknown(why)
                 if node.id not in W.module_names and not hasattr(builtins, node.id):
-                    return Unknown(f"name `{node.id}` is not defined")
+                    why = f"name `{node.id}` is not defined"
+                    if not W.star_import and not self.enclosing_binds(node.id):
+                        W.crash(node, why + " (NameError)", self.qual)
+                        return Bad(why)
+                    return Unknown(why)
             return F.sym(node.id)
         if t is ast.Attribute:
             d = self.canon(dotted(node))
@@ -1087,8 +1150,10 @@ class OP4Eval(AutoEvaluator):
             v = self._ev(node.value)
             self._assign(node.target, v, node)
             return v
-        if t is ast.Dict and all(isinstance(k, ast.Constant) for k in node.keys):
-            return DictValue({k.value: self.ev(v) for k, v in zip(node.keys, node.values)})
+        if t is ast.Dict and all(isinstance(k, ast.Constant) or (isinstance(k, ast.Tuple) and all(isinstance(x, ast.Constant) for x in k.elts))
+                                 for k in node.keys):
+            # constant keys (tuples of constants included)
+            return DictValue({(k.value if isinstance(k, ast.Constant) else tuple(x.value for x in k.elts)): self.ev(v) for k, v in zip(node.keys, node.values)})
         if t is ast.Slice:
             return SliceV(*[None if p is None else self._ev(p) for p in (node.lower, node.upper, node.step)])
         if t in (ast.ListComp, ast.GeneratorExp):
@@ -1111,6 +1176,16 @@ class OP4Eval(AutoEvaluator):
                 if lo is not None and hi is not None and 0 <= lo <= hi <= lo + 64:
                     return [F.fn("idx", u[1][0], F.const(k)) for k in range(lo, hi)]
         return None
+
+    def enclosing_binds(self, name):
+        """is the name bound by a function that encloses the evaluated one (a closure variable the evaluator may have lost track of)?"""
+        q = self.qual or ""
+        parts = q.split(".")
+        for k in range(len(parts) - 1, 0, -1):
+            outer = self.W.mod.funcs.get(".".join(parts[:k]))
+            if outer is not None and name in local_names(outer):
+                return True
+        return False
 
     def canon(self, d):
         """the class reached through the instance or through a class method's first parameter: self.__class__.X, cls.X  ->  OP4.X"""
@@ -1254,6 +1329,13 @@ class OP4Eval(AutoEvaluator):
             other = b if sym_name(a) == "None" else a
             if not is_rat(other):
                 return boolv(op == "IsNot")
+        if op in ("In", "NotIn") and isinstance(b, DictValue) and isinstance(a, tuple):
+            r = self._has_key(b, a)
+            if r is not None:
+                return boolv(r == (op == "In"))
+            parts = [self._key_eq(a, k) for k in b.d]
+            v = parts[0] if len(parts) == 1 else F.fn("bool:Or", *parts)
+            return v if op == "In" else F.fn("not", v)
         if op in ("In", "NotIn") and isinstance(b, DictValue) and is_rat(a):
             r = self._has_key(b, a)
             if r is not None:
@@ -1429,7 +1511,7 @@ class OP4Eval(AutoEvaluator):
                 if key in base.d:
                     return base.d[key]
                 return Unknown("dictionary key")
-            if is_rat(ix):
+            if is_rat(ix) or (isinstance(ix, tuple) and all(is_rat(x) for x in ix)):
                 # a key that is not a constant: the entry whose key it equals in this scenario
                 hits = [k for k in base.d if self.truth(self._key_eq(ix, k)) is True]
                 rest = [k for k in base.d if self.truth(self._key_eq(ix, k)) is None]
@@ -1545,11 +1627,30 @@ class OP4Eval(AutoEvaluator):
         return self.builtin_call(name or "?", pos, kw, node)
 
     def _key_eq(self, v, k):
-        kv = F.sym(repr(k)) if isinstance(k, str) else (boolv(k) if isinstance(k, bool) else F.const(k))
+        if isinstance(k, tuple):
+            if not isinstance(v, tuple) or len(v) != len(k) or not all(is_rat(x) for x in v):
+                return FALSE
+            parts = []
+            for x, y in zip(v, k):
+                p_ = self._key_eq(x, y)
+                r = self.truth(p_)
+                parts.append(boolv(r) if r is not None else p_)
+            return parts[0] if len(parts) == 1 else F.fn("bool:And", *parts)
+        if isinstance(v, tuple):
+            return FALSE
+        if isinstance(k, bool) and self.is_boolean(v):
+            r = self.truth(v)
+            return boolv(r == k) if r is not None else (v if k else F.fn("not", v))
+        kv = F.sym(repr(k)) if isinstance(k, str) else (boolv(k) if isinstance(k, bool) else (F.const(k) if isinstance(k, (int, float)) else NONE))
         return F.fn("cmp:Eq", v, kv)
 
     def _has_key(self, dv, v):
         """v in dv.keys(): True / False / None"""
+        if isinstance(v, tuple):
+            rs = [self.truth(self._key_eq(v, k)) for k in dv.d]
+            if any(r is True for r in rs):
+                return True
+            return False if all(r is False for r in rs) else None
         if not is_rat(v):
             return None
         s = strconst(v)
@@ -2028,6 +2129,12 @@ class OP4Eval(AutoEvaluator):
             if is_rat(x):
                 if x.is_const():
                     return F.const(int(x.const_value()))
+                if not x.d.is_const():
+                    # int(a / b) with a >= 0 and b > 0 is a // b
+                    num, den = F.Rat(x.n), F.Rat(x.d)
+                    ln, ld = self.rng(num)[0], self.rng(den)[0]
+                    if ln is not None and ld is not None and ((ln >= 0 and ld > 0)):
+                        return self._intop(ast.FloorDiv(), num, den)
                 return F.fn("call:int", x)
             return x if is_unknown(x) else Unknown("int of a non-text")
         if name == "str" and n == 1 and not kw:
@@ -2088,6 +2195,20 @@ class OP4Eval(AutoEvaluator):
             return F.fn("abs", pos[0])
         if name == "type" and n == 1 and not kw and is_rat(pos[0]) and sym_name(pos[0]) in ("self", "cls", W.cls):
             return F.sym(W.cls)
+        if name in ("math.floor", "np.floor") and n == 1 and is_rat(pos[0]) and not pos[0].d.is_const():
+            return self._intop(ast.FloorDiv(), F.Rat(pos[0].n), F.Rat(pos[0].d))
+        if name in ("np.frombuffer", "numpy.frombuffer") and n >= 1 and isinstance(pos[0], BytesV):
+            dt = pos[1] if n >= 2 else kw.get("dtype")
+            if dt is not None and not isinstance(dt, DtypeV):
+                t = as_txt(dt, True) if (isinstance(dt, Txt) or (is_rat(dt) and strconst(dt) is not None)) else None
+                dt = DtypeV(t) if t is not None else None
+            code = dt.code() if isinstance(dt, DtypeV) else None
+            if code is None:
+                return Unknown("np.frombuffer dtype")
+            cnt = pos[2] if n >= 3 else kw.get("count")
+            if cnt is None or (is_rat(cnt) and const_int(cnt) == -1):
+                cnt = pos[0].n / CODE_SIZE[code]
+            return unpack_items([(code, cnt)], pos[0]) if is_rat(cnt) else Unknown("np.frombuffer count")
         if name == "bool" and n == 1 and not kw:
             r = self.truth(pos[0])
             if r is not None:
@@ -2395,6 +2516,8 @@ class OP4Eval(AutoEvaluator):
                         names = [dotted(x) for x in (h.type.elts if isinstance(h.type, ast.Tuple) else [h.type])]
                     if h.type is None or e.kind in names or "Exception" in names or "BaseException" in names:
                         self.in_try -= 1
+                        if h.name:
+                            self.env[h.name] = F.sym(f"<exception {e.kind}>")
                         try:
                             self.run(h.body)
                         finally:
@@ -2993,6 +3116,7 @@ def init_state(ctx):
     fn = W.table.get("self.__init__") or func_of(ctx, "OP4.__init__")
     ev = OP4Eval(fn, W, env={}, qual="OP4.__init__")
     ev.run(fn.body)
+    ctx._c04_init_world = W
     return {k: v for k, v in ev.env.items() if k.startswith("self.")}, fn
 
 
@@ -3001,6 +3125,7 @@ def base_world(ctx, state=None, kind="ndarray", cplx=True, rows=(1, None), cols=
     W.opaque |= OPAQUE
     W.bound(ROWS, rows[0], rows[1], split=split_rows)
     W.bound(COLS, cols[0], cols[1], split=split_rows)
+    W.bound(F.sym("digits"), 0, None)          # a number of digits
     W.value_oracle = std_oracle(kind, cplx, truths)
     W.mult = F.const(2 if cplx else 1)
     W.kind, W.cplx = kind, cplx
